@@ -156,7 +156,7 @@ Qed.
 
 Fixpoint default_tys (d : sd) : list N :=
   match d with
-  | SRead ty HDefault | SWrite ty HDefault => [ty]
+  | SRead ty h | SWrite ty h => if provides h then [ty] else []
   | STuple l => (fix go (l : list sd) : list N := match l with [] => [] | x :: r => default_tys x ++ go r end) l
   | _ => []
   end.
@@ -190,11 +190,11 @@ Theorem sd_setup_spec dflt d : forall w k,
 Proof.
   induction d as [ty h|ty h|ty|ty| | |l IH] using sd_ind'; intros w k;
     try (cbn [sd_setup default_tys memN existsb]; destruct (mget w k); destruct (snd k =? 0); reflexivity).
-  - destruct h; cbn [sd_setup default_tys]; [|cbn; destruct (mget w k); destruct (snd k =? 0); reflexivity].
+  - cbn [sd_setup default_tys]. destruct (provides h); [|cbn; destruct (mget w k); destruct (snd k =? 0); reflexivity].
     rewrite insert_default_spec. destruct (mget w k); auto. destruct k as [k1 k2]. unfold key_eqb. cbn [fst snd memN existsb].
     rewrite orb_false_r. rewrite (N.eqb_sym ty k1) at 1 || idtac.
     destruct (N.eqb_spec k1 ty), (N.eqb_spec k2 0); cbn; subst; auto.
-  - destruct h; cbn [sd_setup default_tys]; [|cbn; destruct (mget w k); destruct (snd k =? 0); reflexivity].
+  - cbn [sd_setup default_tys]. destruct (provides h); [|cbn; destruct (mget w k); destruct (snd k =? 0); reflexivity].
     rewrite insert_default_spec. destruct (mget w k); auto. destruct k as [k1 k2]. unfold key_eqb. cbn [fst snd memN existsb].
     rewrite orb_false_r.
     destruct (N.eqb_spec k1 ty), (N.eqb_spec k2 0); cbn; subst; auto.
@@ -210,8 +210,8 @@ Theorem sd_setup_keeps_guards dflt d : forall w,
   guards (sd_setup dflt d w) = guards w /\ dropped (sd_setup dflt d w) = dropped w.
 Proof.
   induction d as [ty h|ty h|ty|ty| | |l IH] using sd_ind'; intros w; try (split; reflexivity).
-  - destruct h; cbn [sd_setup]; [apply insert_default_guards|split; reflexivity].
-  - destruct h; cbn [sd_setup]; [apply insert_default_guards|split; reflexivity].
+  - cbn [sd_setup]. destruct (provides h); [apply insert_default_guards|split; reflexivity].
+  - cbn [sd_setup]. destruct (provides h); [apply insert_default_guards|split; reflexivity].
   - rewrite sd_setup_tuple. revert w. induction IH as [|x r Hx _ IHr]; intros w; cbn [fold_left]; [split; reflexivity|].
     destruct (IHr (sd_setup dflt x w)) as [-> ->]. apply Hx.
 Qed.
@@ -373,4 +373,24 @@ Proof.
   destruct (drop_guards_spec (map g_id new) wm Im) as (I2 & G2 & K2 & M2 & _).
   assert (G : guards (drop_guards (map g_id new) wm) = guards w) by (rewrite G2, Gm; now apply fresh_filter).
   split; auto. apply cells_determined; auto; [congruence|intros k; now rewrite M2, Mm].
+Qed.
+
+(* C06: "its setup is the composition of its members' setups", seen through user-written handlers:
+   the handler calls made by setting up a tuple / derived struct are the calls of its members, one
+   member after the other, whatever the world contains (no member is skipped, none runs twice) *)
+Theorem sd_setup_calls_tuple l : sd_setup_calls (STuple l) = concat (map sd_setup_calls l).
+Proof. induction l as [|x r IH]; [reflexivity|]. cbn [map concat]. rewrite <- IH. reflexivity. Qed.
+
+Fixpoint custom_leaves (d : sd) : list N :=
+  match d with
+  | SRead ty h | SWrite ty h => match h with HCustom => [ty] | _ => [] end
+  | STuple l => concat (map custom_leaves l)
+  | _ => []
+  end.
+(* ... hence exactly one call per member with a user-written handler, in member order, at any nesting *)
+Theorem sd_setup_calls_are_the_custom_members d : sd_setup_calls d = custom_leaves d.
+Proof.
+  induction d as [ty h|ty h|ty|ty| | |l IH] using sd_ind'; try reflexivity; try (destruct h; reflexivity).
+  rewrite sd_setup_calls_tuple. cbn [custom_leaves]. induction IH as [|x r Hx _ IHr]; [reflexivity|].
+  cbn [map concat]. now rewrite Hx, IHr.
 Qed.
